@@ -266,7 +266,7 @@ LUMP_LAYOUT_STANDARD: LumpDataLayout = {
     "PRIMITIVE":        struct.Struct('<HHHHH'),
     "PRIMINDEX":        struct.Struct('<H'),
     "NODE":             struct.Struct('<iii6hHHh2x'),
-    "LEAF":             struct.Struct('<ihh6h4Hh2x'),  # Version 1
+    "LEAF":             struct.Struct('<Ihh6h4Hh2x'),  # Version 1
     "LEAFFACE":         struct.Struct('<H'),
     "LEAFBRUSH":        struct.Struct('<H'),
     "LEAF_AREA_OFFSET": 7,
@@ -278,7 +278,7 @@ LUMP_LAYOUT_STANDARD: LumpDataLayout = {
 
 LUMP_LAYOUT_V19: LumpDataLayout = {
     **LUMP_LAYOUT_STANDARD,
-    "LEAF": struct.Struct('<ihh6h4Hh24s2x'),  # Version 0
+    "LEAF": struct.Struct('<Ihh6h4Hh24s2x'),  # Version 0
 }
 
 LUMP_LAYOUT_INFRA: LumpDataLayout = {
@@ -293,7 +293,7 @@ LUMP_LAYOUT_INFRA: LumpDataLayout = {
 
 LUMP_LAYOUT_VITAMIN: LumpDataLayout = {
     **LUMP_LAYOUT_STANDARD,
-    "LEAF": struct.Struct('<ihh6I4HhBx'),
+    "LEAF": struct.Struct('<Ihh6I4HhBx'),
     "FACE": struct.Struct('<5i4iB3x'),
     "BRUSHSIDE": struct.Struct('<IIhBB'),
     "NODE": struct.Struct('<iii6iHHh2x'),
@@ -308,7 +308,7 @@ LUMP_LAYOUT_CHAOS: LumpDataLayout = {
     "PRIMITIVE":        struct.Struct('<IIIII'),
     "PRIMINDEX":        struct.Struct('<I'),
     "NODE":             struct.Struct('<iii6fIIhxx'),
-    "LEAF":             struct.Struct('<iii6f4Ii'),  # Version 2
+    "LEAF":             struct.Struct('<Iii6f4Ii'),  # Version 2
     "LEAFFACE":         struct.Struct('<I'),
     "LEAFBRUSH":        struct.Struct('<I'),
     "LEAF_AREA_OFFSET": 17,
@@ -2238,7 +2238,7 @@ class BSP:
                 for (plane_num, texinfo, dispinfo, bevel)
                 in self.lump_layout['BRUSHSIDE'].iter_unpack(self.lumps[BSP_LUMPS.BRUSHSIDES].data)
             ]
-        for first_side, side_count, contents in struct.iter_unpack('<iii', data):
+        for first_side, side_count, contents in struct.iter_unpack('<iiI', data):
             yield Brush(BrushContents(contents), sides[first_side:first_side+side_count])
 
     def _lmp_write_brushes(self, brushes: list['Brush']) -> bytes:
@@ -2251,7 +2251,7 @@ class BSP:
         sides_buf = BytesIO()
         for brush in brushes:
             brush_buf.write(struct.pack(
-                '<iii',
+                '<iiI',
                 add_sides(brush.sides), len(brush.sides),
                 brush.contents.value,
             ))
@@ -2577,7 +2577,7 @@ class BSP:
             sx, sy, sz, so, tx, ty, tz, to,
             l_sx, l_sy, l_sz, l_so, l_tx, l_ty, l_tz, l_to,
             flags, texdata_ind,
-        ) in struct.iter_unpack('<16fii', data):
+        ) in struct.iter_unpack('<16fIi', data):
             yield TexInfo(
                 Vec(sx, sy, sz), so,
                 Vec(tx, ty, tz), to,
@@ -2618,7 +2618,7 @@ class BSP:
                 if not self.is_vitamin:
                     texdata_list.append(struct.pack('<2i', tdat.width, tdat.height))
             texinfo_result.append(struct.pack(
-                '<16fii',
+                '<16fIi',
                 *info.s_off, info.s_shift,
                 *info.t_off, info.t_shift,
                 *info.lightmap_s_off, info.lightmap_s_shift,
